@@ -32,7 +32,10 @@ EXTENDS Integers, Sequences, FiniteSets, TLC
 CONSTANTS
   Plus(_, _), Minus(_, _), Le(_, _),  \* ordered group of parameter values
   Same(_, _),                         \* equality of two computed values (exact on the lattice)
-  VarOfRaw(_, _), RawOfVar(_, _),     \* TPL classes: var = raw * len_scale (hurst 1/2, rescale 1)
+  VarOfRaw(_, _, _, _), RawOfVar(_, _, _, _),
+     \* TPL classes (cls, value, len_scale, optional argument): var = raw * var_factor(len_scale, opt);
+     \* "TPL": opt = len_low, hurst = 1/2, factor = len_scale;  "TPLH": opt = hurst, len_low = 0,
+     \* factor = len_scale^(2 hurst) / (2 hurst)  (rescale = 1)
   Cfgs,                               \* set of configurations (see below)
   Cand, CandEv,                       \* adversary: argument name -> candidate values (optimum / evaluations)
   MaxEv,                              \* free evaluations before the optimiser returns (>= 1)
@@ -42,7 +45,9 @@ VARIABLES cfg, phase, ialts, cp, cm, evs, popt, iends, cend, disc
 vars == <<cfg, phase, ialts, cp, cm, evs, popt, iends, cend, disc>>
 
 (* A configuration c:
-   cls      "Plain" | "Opt" | "TPL"      dim 1..3
+   cls      "Plain" | "Opt" | "TPL" | "TPLH"     dim 1..4 (the model dimension, time axis included)
+   temporal metric spatio-temporal model (dim = spatial_dim + 1); the documented semantics
+            does not distinguish it: all dim - 1 ratios are fitted / fixed / kept
    dir      directional variograms were passed        latlon  lat-lon model
    pre      public model before the call [var, len, nug, opt, anis]
    bnd      [var, len, nug, opt, anis |-> [lo, hi, lc, hc]]
@@ -69,7 +74,10 @@ IsFit(c, p) == c.sel[p].k = "fit"
 IsFix(c, p) == c.sel[p].k = "fix"
 Free(c)     == [p \in Params |-> IsFit(c, p)]
 None        == [p \in Params |-> FALSE]
-IsTPL(c)    == c.cls = "TPL"
+IsTPL(c)    == c.cls \in {"TPL", "TPLH"}
+(* the variance a TPL model with intensity of variation (var_raw) of the variance v at (l0, o0)
+   has at (l1, o1) *)
+Dragged(c, v, l0, o0, l1, o1) == VarOfRaw(c.cls, RawOfVar(c.cls, v, l0, o0), l1, o1)
 
 -----------------------------------------------------------------------------
 (*                      Part 1: the documented semantics                    *)
@@ -77,22 +85,24 @@ IsTPL(c)    == c.cls = "TPL"
 (* "You could also pass fixed values for each parameter.  Then these values
    will be applied and the involved parameters wont be fitted."  Applying a
    value is an assignment to the model (C14): the variance of a TPL model
-   follows an assigned length scale unless a variance is given as well.      *)
+   follows an assigned length scale / optional argument (var_factor) unless a
+   variance is given as well.                                                 *)
 Fixed(c) ==
   LET len1 == IF IsFix(c, "len") THEN c.sel.len.v ELSE c.pre.len
+      opt1 == IF IsFix(c, "opt") THEN c.sel.opt.v ELSE c.pre.opt
       var1 == IF IsFix(c, "var") THEN c.sel.var.v
-              ELSE IF IsTPL(c) /\ IsFix(c, "len")
-                   THEN VarOfRaw(RawOfVar(c.pre.var, c.pre.len), len1)
+              ELSE IF IsTPL(c) /\ (IsFix(c, "len") \/ IsFix(c, "opt"))
+                   THEN Dragged(c, c.pre.var, c.pre.len, c.pre.opt, len1, opt1)
                    ELSE c.pre.var
   IN [var  |-> var1, len |-> len1,
       nug  |-> IF IsFix(c, "nug") THEN c.sel.nug.v ELSE c.pre.nug,
-      opt  |-> IF IsFix(c, "opt") THEN c.sel.opt.v ELSE c.pre.opt,
+      opt  |-> opt1,
       anis |-> IF c.anis.k = "fix" THEN c.anis.v ELSE c.pre.anis]
 
 FixedOK(c) ==
   /\ \A p \in Params : IsFix(c, p) => InB(c.bnd[p], c.sel[p].v)
   /\ (c.anis.k = "fix" => AllInB(c.bnd.anis, c.anis.v))
-  /\ (IsTPL(c) /\ IsFix(c, "len") => InB(c.bnd.var, Fixed(c).var))
+  /\ (IsTPL(c) /\ (IsFix(c, "len") \/ IsFix(c, "opt")) => InB(c.bnd.var, Fixed(c).var))
 
 IErr(c, why) == [st |-> "error", why |-> why, para |-> None, fanis |-> FALSE,
                  cs |-> FALSE, sill |-> c.pre.var, m |-> c.pre]
@@ -153,12 +163,16 @@ ILate(c, pp) ==
   ELSE IF (\A p \in Params : ~pp.para[p]) /\ ~pp.fanis THEN [pp EXCEPT !.st = "nofit"]
   ELSE pp
 
-(* a fixed length scale drags the variance of a TPL model along before a fixed
-   variance is applied; whether that intermediate value has to respect the
-   variance bounds depends on the (unspecified) order of the assignments      *)
+(* a fixed length scale / optional argument drags the variance of a TPL model along
+   before the other fixed values are applied; whether such an intermediate value has
+   to respect the variance bounds depends on the (unspecified) order of the assignments *)
 TPLPassesBounds(c) ==
-  IsTPL(c) /\ IsFix(c, "len") /\ IsFix(c, "var")
-  /\ ~InB(c.bnd.var, VarOfRaw(RawOfVar(c.pre.var, c.pre.len), c.sel.len.v))
+  /\ IsTPL(c)
+  /\ LET l1 == Fixed(c).len
+         o1 == Fixed(c).opt
+     IN \/ ~InB(c.bnd.var, Dragged(c, c.pre.var, c.pre.len, c.pre.opt, l1, c.pre.opt))
+        \/ ~InB(c.bnd.var, Dragged(c, c.pre.var, c.pre.len, c.pre.opt, c.pre.len, o1))
+        \/ ~InB(c.bnd.var, Dragged(c, c.pre.var, c.pre.len, c.pre.opt, l1, o1))
 
 IdealPre(c) ==
   IF c.unknown THEN {IErr(c, "unknown parameter in selection")}
@@ -204,10 +218,11 @@ EndOK(c, pp, e) == Untouched(c, pp, e) /\ EndInBounds(c, e) /\ SillMet(pp, e)
 -----------------------------------------------------------------------------
 (*                  Part 2: transcription of covmodel/fit.py               *)
 
-RawI(c, v, l) == IF IsTPL(c) THEN RawOfVar(v, l) ELSE v
-VarI(c, r, l) == IF IsTPL(c) THEN VarOfRaw(r, l) ELSE r
-RawM(c, m) == [raw |-> RawI(c, m.var, m.len), len |-> m.len, nug |-> m.nug, opt |-> m.opt, anis |-> m.anis]
-Pub(c, m)  == [var |-> VarI(c, m.raw, m.len), len |-> m.len, nug |-> m.nug, opt |-> m.opt, anis |-> m.anis]
+RawI(c, v, l, o) == IF IsTPL(c) THEN RawOfVar(c.cls, v, l, o) ELSE v
+VarI(c, r, l, o) == IF IsTPL(c) THEN VarOfRaw(c.cls, r, l, o) ELSE r
+VarM(c, m) == VarI(c, m.raw, m.len, m.opt)
+RawM(c, m) == [raw |-> RawI(c, m.var, m.len, m.opt), len |-> m.len, nug |-> m.nug, opt |-> m.opt, anis |-> m.anis]
+Pub(c, m)  == [var |-> VarM(c, m), len |-> m.len, nug |-> m.nug, opt |-> m.opt, anis |-> m.anis]
 
 (* _init_curve_fit_para: the box handed to curve_fit
    (top of var = min(sill, upper variance bound) under a prescribed sill) *)
@@ -220,20 +235,25 @@ CErr(c, why) == [st |-> "error", why |-> why, para |-> None, fanis |-> FALSE, cs
                  sill |-> c.pre.var, m |-> RawM(c, c.pre), vsave |-> c.pre.var,
                  box |-> BoxOf(c, FALSE, c.pre.var)]
 
-(* the loop over para_select: setattr for non-bool values, variance last *)
+(* the loop over para_select: setattr for non-bool values in keyword order (the driver passes
+   len_scale before the optional argument), variance last *)
 ImplFixed(c) ==
   LET len1 == IF IsFix(c, "len") THEN c.sel.len.v ELSE c.pre.len
-      raw0 == RawI(c, c.pre.var, c.pre.len)
-  IN [raw  |-> IF IsFix(c, "var") THEN RawI(c, c.sel.var.v, len1) ELSE raw0,
+      opt1 == IF IsFix(c, "opt") THEN c.sel.opt.v ELSE c.pre.opt
+      raw0 == RawI(c, c.pre.var, c.pre.len, c.pre.opt)
+  IN [raw  |-> IF IsFix(c, "var") THEN RawI(c, c.sel.var.v, len1, opt1) ELSE raw0,
       len  |-> len1,
       nug  |-> IF IsFix(c, "nug") THEN c.sel.nug.v ELSE c.pre.nug,
-      opt  |-> IF IsFix(c, "opt") THEN c.sel.opt.v ELSE c.pre.opt,
+      opt  |-> opt1,
       anis |-> c.pre.anis]
-ImplFixedOK(c) ==     \* every setter checks all bounds (also the variance a TPL length scale drags along)
+ImplFixedOK(c) ==     \* every setter checks all bounds (also the variance a TPL model drags along)
   /\ \A p \in Params : IsFix(c, p) => InB(c.bnd[p], c.sel[p].v)
-  /\ InB(c.bnd.var, VarI(c, ImplFixed(c).raw, ImplFixed(c).len))
-  /\ ((IsTPL(c) /\ IsFix(c, "len")) =>
-        InB(c.bnd.var, VarOfRaw(RawI(c, c.pre.var, c.pre.len), c.sel.len.v)))
+  /\ InB(c.bnd.var, VarM(c, ImplFixed(c)))
+  /\ (IsTPL(c) =>
+        LET raw0 == RawI(c, c.pre.var, c.pre.len, c.pre.opt)
+            len1 == ImplFixed(c).len
+        IN /\ (IsFix(c, "len") => InB(c.bnd.var, VarI(c, raw0, len1, c.pre.opt)))
+           /\ (IsFix(c, "opt") => InB(c.bnd.var, VarI(c, raw0, len1, ImplFixed(c).opt))))
 
 (* tail of _pre_para (anis), method check, _check_vario, `anis &= is_dir_vario` *)
 CFinish(c, para, cs, s, m) ==
@@ -244,7 +264,7 @@ CFinish(c, para, cs, s, m) ==
            fan == c.anis.k = "fit" /\ c.dir
        IN [st |-> IF (\A p \in Params : ~para[p]) /\ ~fan THEN "nofit" ELSE "ready",
            why |-> "", para |-> para, fanis |-> fan, cs |-> cs, sill |-> s, m |-> m2,
-           vsave |-> VarI(c, m2.raw, m2.len),          \* var_save = model.var in _get_curve
+           vsave |-> VarM(c, m2),                      \* var_save = model.var in _get_curve
            box |-> BoxOf(c, cs, s)]
 
 ImplPre(c) ==
@@ -254,7 +274,7 @@ ImplPre(c) ==
   LET f  == Free(c)                 \* not in para_select after filtering
       b  == c.bnd
       m1 == ImplFixed(c)
-      v1 == VarI(c, m1.raw, m1.len)
+      v1 == VarM(c, m1)
   IN
   IF c.sill.k \in {"none", "true"} THEN CFinish(c, f, FALSE, v1, m1)
   ELSE
@@ -265,7 +285,7 @@ ImplPre(c) ==
     THEN LET n == b.nug.lo
              v == Minus(s, n)
          IN IF InB(b.nug, n) /\ InB(b.var, v)
-            THEN CFinish(c, f, TRUE, s, [m1 EXCEPT !.nug = n, !.raw = RawI(c, v, m1.len)])
+            THEN CFinish(c, f, TRUE, s, [m1 EXCEPT !.nug = n, !.raw = RawI(c, v, m1.len, m1.opt)])
             ELSE CErr(c, "setter")
     ELSE IF InB(b.nug, Minus(s, v1))
          THEN CFinish(c, f, TRUE, s, [m1 EXCEPT !.nug = Minus(s, v1)])
@@ -279,7 +299,7 @@ ImplPre(c) ==
     IF Lt(s, m1.nug) THEN CErr(c, "nugget bigger than sill")
     ELSE IF InB(b.var, Minus(s, m1.nug))
          THEN CFinish(c, [f EXCEPT !.var = FALSE], TRUE, s,
-                      [m1 EXCEPT !.raw = RawI(c, Minus(s, m1.nug), m1.len)])
+                      [m1 EXCEPT !.raw = RawI(c, Minus(s, m1.nug), m1.len, m1.opt)])
          ELSE CErr(c, "setter")
   ELSE CFinish(c, [f EXCEPT !.nug = FALSE], TRUE, s, m1)
 
@@ -289,19 +309,24 @@ Infeasible(c, pp, x) == pp.para.var /\ pp.cs /\ ~InB(c.bnd.nug, Minus(pp.sill, x
 SetterRaises(c, pp, x) ==
   \/ \E p \in Params : pp.para[p] /\ ~InB(c.bnd[p], x[p])
   \/ (pp.fanis /\ ~AllInB(c.bnd.anis, x.anis))
-(* `model.len_scale = ...` on a TPL model: var_raw stays, the variance follows and
+(* `model.len_scale = ...` / `setattr(model, <optional argument>, ...)` on a TPL model:
+   var_raw stays, the variance follows and
    is checked before `model.var = ...` restores it *)
 DragRaises(c, pp, m, x) ==
-  IsTPL(c) /\ pp.para.len /\ ~InB(c.bnd.var, VarOfRaw(m.raw, x.len))
+  /\ IsTPL(c)
+  /\ LET len1 == IF pp.para.len THEN x.len ELSE m.len IN
+     \/ (pp.para.len /\ ~InB(c.bnd.var, VarI(c, m.raw, len1, m.opt)))
+     \/ (pp.para.opt /\ ~InB(c.bnd.var, VarI(c, m.raw, len1, x.opt)))
 
 ImplEval(c, pp, m, x) ==
   IF Infeasible(c, pp, x) THEN m
   ELSE LET nug1 == IF pp.para.var /\ pp.cs THEN Minus(pp.sill, x.var) ELSE m.nug
            len1 == IF pp.para.len THEN x.len ELSE m.len
+           opt1 == IF pp.para.opt THEN x.opt ELSE m.opt
            v    == IF pp.para.var THEN x.var ELSE pp.vsave    \* "needs to be reset for TPL models"
-       IN [raw  |-> RawI(c, v, len1), len |-> len1,
+       IN [raw  |-> RawI(c, v, len1, opt1), len |-> len1,
            nug  |-> IF pp.para.nug THEN x.nug ELSE nug1,
-           opt  |-> IF pp.para.opt THEN x.opt ELSE m.opt,
+           opt  |-> opt1,
            anis |-> IF pp.fanis THEN x.anis ELSE m.anis]
 
 (* _post_fitting: var_tmp starts as the current variance of the model and is
@@ -310,14 +335,14 @@ ImplEval(c, pp, m, x) ==
    other entries of the dictionary are read from the model (nugget after the
    assignment above), and the variance is assigned last in every case.        *)
 ImplPost(c, pp, m, x) ==
-  LET vtmp == IF pp.para.var THEN x.var ELSE VarI(c, m.raw, m.len)
+  LET vtmp == IF pp.para.var THEN x.var ELSE VarM(c, m)
       len1 == IF pp.para.len THEN x.len ELSE m.len
       nug1 == IF pp.para.nug THEN x.nug
               ELSE IF pp.para.var /\ pp.cs THEN Minus(pp.sill, x.var) ELSE m.nug
       opt1 == IF pp.para.opt THEN x.opt ELSE m.opt
       ani1 == IF pp.fanis THEN x.anis ELSE m.anis
   IN [st  |-> "ok",
-      m   |-> [raw |-> RawI(c, vtmp, len1), len |-> len1, nug |-> nug1, opt |-> opt1, anis |-> ani1],
+      m   |-> [raw |-> RawI(c, vtmp, len1, opt1), len |-> len1, nug |-> nug1, opt |-> opt1, anis |-> ani1],
       ret |-> [var |-> vtmp, len |-> len1, nug |-> nug1, opt |-> opt1, anis |-> ani1]]
 
 CEndErr(c) == [st |-> "error", m |-> RawM(c, c.pre), ret |-> c.pre]
@@ -454,7 +479,8 @@ LastEvalDecides ==
 
 (* The transcription agrees with the documentation, except for the one recorded
    deviation (known finding error:spurious:TPL:var-bounds): on a TPL model the
-   assignment of a fitted len_scale inside the closure / the post-processing drags
+   assignment of a fitted len_scale (or of an optional argument that enters
+   var_factor) inside the closure / the post-processing drags
    the variance along and the bounds are checked before the variance is restored,
    so a call the documentation admits ends in a ValueError.  Every other
    discrepancy violates this invariant.                                        *)
